@@ -49,6 +49,11 @@ def rules(ctx):
     c202(ctx)
     c203(ctx)
     c204(ctx)
+    # every write goes through the log's coalescing queues and the store's wait list: a lost wake-up there blocks writes for ever
+    from . import C18
+    C18.c181(ctx)
+    C18.c182(ctx)
+    C18.c185(ctx)
 
 
 def gated_pair_ok(ctx, R):
